@@ -1334,8 +1334,8 @@ Proof.
   - left. eexists. reflexivity.
   - right. split; [reflexivity|].
     unfold swap_to_send_plan, swap_to_send_plan_gen.
-    change (Z.of_nat (length (amount_split amount))) with (popcount amount). fold f.
+    unfold popcount in f. fold f.
     rewrite add64_small by (unfold W64; lia).
-    destruct (select_for_amount_live_active m active (amount + f) true Hnn Hlt ltac:(lia) ltac:(lia)) as [r2 Hr2].
+    destruct (select_for_amount_live_active m active (amount + f) true Hnn Hlt ltac:(lia) ltac:(cbv beta iota; lia)) as [r2 Hr2].
     unfold select_proofs_for_amount in Hr2. rewrite Hr2. eexists. reflexivity.
 Qed.
